@@ -9,8 +9,9 @@ LEAN_MODULES = ["CatiiProps.C08"]
 RULE = ("exhaustive: all ordered pairs of subsets of a small universe containing 0 and 2^32-1 (6 elements quick, 8 "
         "thorough) for the three kernels, x {array, None} for the three wrappers; all lists of <=3 arrays drawn from "
         "subsets of a 4-universe (+ random longer lists) for the k-way union; random long pairs over eleven overlap "
-        "patterns (incl. skewed lengths 1-4 vs 65-5000), half of them passed as views into longer buffers whose "
-        "neighbouring words are row ids of the other operand. Non-trivial = both operands non-empty arrays (or >=2 non-empty arrays for k-way); distinct by input")
+        "patterns (incl. skewed lengths 1-4 vs 65-5000), passed contiguous, as views into longer buffers whose "
+        "neighbouring words are row ids of the other operand, as stride-2/3 views and as backwards views of descending "
+        "buffers; the exhaustive 6-universe pairs again as stride-2 and backwards views. Non-trivial = both operands non-empty arrays (or >=2 non-empty arrays for k-way); distinct by input")
 ASSUMPTIONS = ["arrays of fewer than 2^31 elements (the kernels use C int pointers; documented in the source)"]
 
 FN2 = ["inter", "union", "diff"]
@@ -31,11 +32,44 @@ def embedded(xs, other):
     return buf[1:1 + len(xs)]
 
 
+def strided(xs, other, k):
+    """xs as every k-th word of a longer buffer; the words in between are row ids of the other operand (or near
+    misses of xs), so a kernel that walks the buffer instead of the operand returns a plausible but wrong set"""
+    other = list(other or []) or [v ^ 1 for v in xs] or [7]
+    buf = u32([other[j % len(other)] for j in range(len(xs) * k + k)])
+    buf[0:len(xs) * k:k] = xs
+    v = buf[0:len(xs) * k:k]
+    assert len(v) == len(xs) and (len(xs) < 2 or not v.flags["C_CONTIGUOUS"])
+    return v
+
+
+def backwards(xs, other):
+    """xs as a negative-stride view of a descending buffer"""
+    other = list(other or [])
+    pre = max([v for v in other if xs and v < xs[0]], default=0)
+    post = min([v for v in other if xs and v > xs[-1]], default=G.U32)
+    buf = u32([post, post] + list(reversed(xs)) + [pre, pre])
+    return buf[2:2 + len(xs)][::-1]
+
+
+def as_view(xs, other, mode):
+    if not mode:
+        return u32(xs)
+    if mode is True or mode == "embedded":
+        return embedded(xs, other)
+    if mode == "backwards":
+        return backwards(xs, other)
+    return strided(xs, other, int(mode[-1]))
+
+
+VIEWS = [False, "embedded", "stride2", "stride3", "backwards"]
+
+
 def run_impl(so, fn, a, b, embed=False):
     """returns ('ok', list | None) or ('raise', name); also dtype/sortedness facts"""
     try:
-        A = None if a is None else (embedded(a, b) if embed else u32(a))
-        B = None if b is None else (embedded(b, a) if embed else u32(b))
+        A = None if a is None else as_view(a, b, embed)
+        B = None if b is None else as_view(b, a, embed)
         f = {"inter": so.set_intersect_merge_np, "union": so.set_union_merge_np, "diff": so.set_difference_merge_np,
              "intersection": so.intersection, "union_w": so.union, "difference": so.difference}[fn]
         r = f(A, B)
@@ -67,11 +101,14 @@ def expect(fn, a, b):
     return r
 
 
-def check_one(ctx, so, fn, a, b, reqs, pend, embed=False):
+def check_one(ctx, so, fn, a, b, reqs, pend, embed=False, model=True):
     got = run_impl(so, fn, a, b, embed)
     if embed:
         ctx.hit("operands_as_views")
+        ctx.hit("view:%s" % embed)
     case = {"fn": fn, "l": a, "r": b}
+    if embed:
+        case["view"] = embed
     nontriv = bool(a) and bool(b)
     ctx.case(case if len(str(case)) < 400 else {"fn": fn, "len_l": len(a or []), "len_r": len(b or [])}, nontrivial=nontriv)
     ctx.hit("fn:" + fn)
@@ -84,8 +121,9 @@ def check_one(ctx, so, fn, a, b, reqs, pend, embed=False):
                             cls="C08-wrong-result")
         elif got[1] is not None and got[2] != "uint32":
             ctx.oracle_fail("%s returned dtype %s" % (fn, got[2]), case, cls="C08-dtype")
-    reqs.append({"op": "kern", "fn": fn, "l": a, "r": b})
-    pend.append((case, got))
+    if model:
+        reqs.append({"op": "kern", "fn": fn, "l": a, "r": b})
+        pend.append((case, got))
 
 
 def _s(x):
@@ -93,13 +131,16 @@ def _s(x):
     return s if len(s) < 120 else s[:117] + "..."
 
 
-def check_many(ctx, so, arrays, reqs, pend):
+def check_many(ctx, so, arrays, reqs, pend, view=False):
     case = {"fn": "union_many", "arrays": arrays}
+    if view:
+        case["view"] = view
+        ctx.hit("many_view:%s" % view)
     ctx.case(case if len(str(case)) < 400 else {"fn": "union_many", "lens": [len(a) for a in arrays]},
              nontrivial=sum(1 for a in arrays if a) >= 2)
     ctx.hit("fn:union_many")
     try:
-        r = so.set_union_merge_many([u32(a) for a in arrays])
+        r = so.set_union_merge_many([as_view(a, arrays[(j + 1) % len(arrays)], view) for j, a in enumerate(arrays)])
         got = ("ok", [int(x) for x in np.asarray(r).tolist()], str(np.asarray(r).dtype))
     except Exception as e:
         got = ("raise", type(e).__name__, None)
@@ -126,6 +167,16 @@ def run(ctx):
             for fn in FN2:
                 check_one(ctx, so, fn, a, b, reqs, pend)
     ctx.exhaustive.append("all %d^2 ordered pairs of subsets of %s x {inter, union, diff}" % (len(subs), G.universe(n_u)))
+    # the same operands as non-contiguous views (every 2nd word of a buffer; a descending buffer read backwards):
+    # the kernels take any 1-D uint32 buffer, and index entries assigned by a caller may be such views
+    sub6 = list(G.subsets(G.universe(6)))
+    for view in ("stride2", "backwards"):
+        for a in sub6:
+            for b in sub6:
+                for fn in FN2:
+                    check_one(ctx, so, fn, a, b, reqs, pend, embed=view, model=False)
+    ctx.exhaustive.append("all %d^2 ordered pairs of subsets of %s x 3 kernels, operands as stride-2 and as backwards views "
+                          "(set-algebra oracle)" % (len(sub6), G.universe(6)))
     small = list(G.subsets(G.universe(4)))
     for a in small + [None]:
         for b in small + [None]:
@@ -142,12 +193,12 @@ def run(ctx):
     for _ in range(ctx.n(150)):
         k = ctx.rng.randrange(0, 7)
         arrays = [G.random_sorted(ctx.rng, ctx.rng.randrange(0, 40), 0, ctx.rng.choice([30, 1000, G.U32])) for _ in range(k)]
-        check_many(ctx, so, arrays, reqs, pend)
+        check_many(ctx, so, arrays, reqs, pend, view=ctx.rng.choice(VIEWS))
     # random long pairs
     for _ in range(ctx.n(400)):
         kind, a, b = G.random_pair(ctx.rng, maxlen=ctx.rng.choice([8, 60, 400]))
         ctx.hit("pattern:" + kind)
-        emb = ctx.rng.random() < 0.5
+        emb = ctx.rng.choice(VIEWS)
         for fn in FN2 + WR:
             check_one(ctx, so, fn, a, b, reqs, pend, embed=emb)
     if ctx.oracle_only:
@@ -166,7 +217,8 @@ def replay(ctx, rep):
     so = core.load_kernels("plain")
     c = rep["case"]
     if c["fn"] == "union_many":
-        r = so.set_union_merge_many([u32(a) for a in c["arrays"]])
+        v = c.get("view", False)
+        r = so.set_union_merge_many([as_view(a, c["arrays"][(j + 1) % len(c["arrays"])], v) for j, a in enumerate(c["arrays"])])
         return [int(x) for x in r.tolist()] == sorted(set().union(*[set(a) for a in c["arrays"]])) if c["arrays"] else len(r) == 0
-    got = run_impl(so, c["fn"], c["l"], c["r"])
+    got = run_impl(so, c["fn"], c["l"], c["r"], c.get("view", False))
     return got[0] == "ok" and got[1] == expect(c["fn"], c["l"], c["r"])
